@@ -100,7 +100,14 @@ def run_entry(rec, name, funcs, call, native, expect_random=True, allow_shared=N
 
     def ob(kind):
         def go():
-            res, fail = get()
+            try:
+                res, fail = get()
+            except Unsupported as ex:
+                # outside the symbolic model (e.g. a changed tree reads generator internals): the native replay alone may still find a witness
+                wit = native(kind)
+                if wit is None:
+                    return ('undecided', 'engine', 'outside the symbolic model: %s (native replay finds nothing)' % (str(ex)[:200],))
+                return ('refuted', 'native replay (symbolic execution undecided)', '%s | native: %s' % (str(ex)[:120], wit['what']), wit)
             if fail is None or fail[0] != kind:
                 return ('discharged', 'ghost provenance', 'all %d entries' % len(atoms_of(res)))
             wit = native(kind)
@@ -187,8 +194,30 @@ def models(rec):
     cpm = chi_sym.CovariatePopulationModel(chi_sym.GaussianModel(), chi_sym.LinearCovariateModel(n_cov=1))
     cpar = np.array([pos('mu'), pos('sd'), S(sp.Integer(0)), S(sp.Integer(0))], dtype=object)
     cov = np.array([[pos('c0')], [pos('c1')]], dtype=object)
-    run_entry(rec, 'CovariatePopulationModel', ['chi._population_models.CovariatePopulationModel.sample'], lambda sd: cpm.sample(cpar, cov, n_samples=2, seed=sd),
-              lambda kind: native_repeat(lambda sd: real.CovariatePopulationModel(real.GaussianModel(), real.LinearCovariateModel(n_cov=1)).sample([0.5, 1.0, 0.1, 0.0], [[1.0], [2.0]], n_samples=2, seed=sd)))
+    def nat_cov(kind):
+        mk_ = lambda: real.CovariatePopulationModel(real.GaussianModel(), real.LinearCovariateModel(n_cov=1))
+        if kind == 'seed.independent' and not GEN_MODE[0]:
+            smp = np.asarray(mk_().sample([0.5, 1.0, 0.0, 0.0], [[1.0]], n_samples=40, seed=9), dtype=float).flatten()
+            if len(np.unique(np.round(smp, 10))) < 30:
+                return {'what': 'integer seed 9: only %d distinct values among the 40 sampled individuals of one subpopulation (the same draw is reused)' % len(np.unique(np.round(smp, 10))), 'expected': '40 independent draws', 'observed': smp[:6].tolist()}
+        return native_repeat(lambda sd: mk_().sample([0.5, 1.0, 0.1, 0.0], [[1.0], [2.0]], n_samples=2, seed=sd))
+    run_entry(rec, 'CovariatePopulationModel', ['chi._population_models.CovariatePopulationModel.sample'], lambda sd: cpm.sample(cpar, cov, n_samples=2, seed=sd), nat_cov)
+    # two truncated-Gaussian blocks in one composition share one generator: their draws must still be independent
+    tpm = chi_sym.ComposedPopulationModel([chi_sym.TruncatedGaussianModel(), chi_sym.GaussianModel(), chi_sym.TruncatedGaussianModel()])
+    tpar = np.array([pos('t%d' % k) for k in range(6)], dtype=object)
+
+    def nat_trunc(kind):
+        mk_ = lambda: real.ComposedPopulationModel([real.TruncatedGaussianModel(), real.GaussianModel(), real.TruncatedGaussianModel()])
+        if kind in ('seed.independent', 'seed.generator'):
+            smp = np.asarray(mk_().sample([1.0, 1.0, 0.0, 1.0, 1.0, 1.0], n_samples=300, seed=(np.random.default_rng(5) if GEN_MODE[0] else 5)), dtype=float)
+            cc = float(np.corrcoef(smp[:, 0], smp[:, 2])[0, 1])
+            if abs(cc) > 0.5:
+                return {'what': 'the draws of the two truncated-Gaussian dimensions of one composed model have correlation %.3f over 300 samples' % cc, 'expected': 'independent draws', 'observed': cc}
+        return native_repeat(lambda sd: mk_().sample([1.0, 1.0, 0.0, 1.0, 1.0, 1.0], n_samples=3, seed=sd))
+    run_entry(rec, 'ComposedPopulationModel(2 truncated)', ['chi._population_models.TruncatedGaussianModel.sample', 'chi._population_models.ComposedPopulationModel.sample'],
+              lambda sd: tpm.sample(tpar, n_samples=2, seed=sd), nat_trunc,
+              # the integer sub-seed drawn for a truncated block is shared by that block's draws by design; the draws themselves (TN atoms) must differ
+              allow_shared=lambda c1, c2, a_: isinstance(a_, ghost.UI))
 
 
 GEN_MODE = [False]          # native replays of the seed.generator obligation pass numpy generators instead of integer seeds
@@ -451,6 +480,19 @@ def initial_parameters(rec):
     post = chi_sym.HierarchicalLogPosterior(hll, Prior(hll.n_parameters(True)))
 
     def nat_h(kind):
+        # real posterior, non-centred individual-level parameters: the standardised draws must depend on the seed (and on nothing else)
+        import pints
+        Toy = native_toy(1, 2)
+        lls = [real.LogLikelihood(Toy(), [real.GaussianErrorModel()], [6.0, 6.5], [1.0, 2.0]) for _ in range(3)]
+        popn = real.ComposedPopulationModel([real.GaussianModel(centered=False), real.LogNormalModel(centered=False), real.PooledModel()])
+        postn = real.HierarchicalLogPosterior(real.HierarchicalLogLikelihood(lls, popn), pints.ComposedLogPrior(*[pints.LogNormalLogPrior(0.0, 0.1) for _ in range(5)]))
+        wit = native_repeat(lambda sd: postn.sample_initial_parameters(n_samples=2, seed=sd))
+        if wit is not None:
+            return wit
+        nb = postn.n_parameters() - 5
+        blocks = [np.asarray(postn.sample_initial_parameters(n_samples=2, seed=sd))[:, :nb] for sd in (3, 4, 5)]
+        if any(np.array_equal(blocks[0], b_) for b_ in blocks[1:]):
+            return {'what': 'the individual-level (standardised) draws of the initial points are identical for the seeds 3, 4 and 5: %s' % np.round(blocks[0][0], 4).tolist(), 'expected': 'draws that depend on the seed', 'observed': blocks[0].tolist()}
         return None
     run_entry(rec, 'HierarchicalLogPosterior.sample_initial_parameters', ['chi._log_pdfs.HierarchicalLogPosterior.sample_initial_parameters'],
               lambda sd: post.sample_initial_parameters(n_samples=2, seed=sd), nat_h, generator_seed=False,
